@@ -415,11 +415,42 @@ def sqrt(I, x):
     return v
 
 
+def sqrt_sumsq(I, xs):
+    """euclidean norm: sqrt of a sum of squares is always defined (no negative branch)"""
+    ssq = reduce_sum(I, [scalar_op(I, ast.Mult(), x, x) for x in xs])
+    if type(ssq) in (int, float):
+        return NAN if is_nan(ssq) else math.sqrt(ssq)
+    st = I.st
+    z = to_z3(ssq, "real")
+    key = ("sqrt", z.get_id())
+    if key in st.ghost:
+        return st.ghost[key]
+    r = st.fresh("norm", z3.RealSort())
+    st.assume(z3.And(r >= 0, r * r == z))
+    v = SV(r, "real")
+    st.ghost[key] = v
+    return v
+
+
 def norm(I, a, axis=None):
     a = asarray(I, a)
     if axis is None:
-        return sqrt(I, reduce_sum(I, [scalar_op(I, ast.Mult(), x, x) for x in flat(a.data)]))
-    return reduce_axis(I, a, axis, lambda xs: sqrt(I, reduce_sum(I, [scalar_op(I, ast.Mult(), x, x) for x in xs])))
+        return sqrt_sumsq(I, flat(a.data))
+    return reduce_axis(I, a, axis, lambda xs: sqrt_sumsq(I, xs))
+
+
+def trig(I, name, x):
+    """sin/cos of a symbolic angle: symbols s, c with s*s + c*c == 1 (per angle term)"""
+    if type(x) in (int, float):
+        return getattr(math, name)(x)
+    st = I.st
+    z = to_z3(x, "real")
+    key = ("trig", z.get_id())
+    if key not in st.ghost:
+        s_, c_ = st.fresh("sin", z3.RealSort()), st.fresh("cos", z3.RealSort())
+        st.assume(s_ * s_ + c_ * c_ == 1)
+        st.ghost[key] = (SV(s_, "real"), SV(c_, "real"), z)
+    return st.ghost[key][0 if name == "sin" else 1]
 
 
 def dot(I, a, b):
